@@ -244,6 +244,43 @@ def _ob_route(pi: int, with_err: bool, first: int) -> bool:
         return len(log) == 0 and conn.sent == b''
 
 
+# ---- I: two connections served one after the other by ONE server object (a serial schedule of the threaded server) -------------------
+def serve_two(pi, pj, with_err):
+    del LOG[:]
+    handlers = {'ADT^A01': (H_A01,), 'QBP^Q22^QBP_Q21': (H_Q22, 'extra')}
+    if with_err:
+        handlers['ERR'] = (_Err,)
+    server = _Server(handlers)
+    out = []
+    for k in (pi, pj):
+        start = len(LOG)
+        conn = Conn(SB + PAYLOADS[k][0] + EB + CR, 3, -1)
+        exc = None
+        try:
+            MLLPRequestHandler(conn, ('127.0.0.1', 1000 + len(out)), server)
+        except Exception as e:
+            exc = e
+        out.append((conn, list(LOG[start:]), type(exc).__name__ if exc else None))
+    return out
+
+
+def _ob_iso(pi: int, pj: int, with_err: bool) -> bool:
+    """
+    pre: 0 <= pi < NP and 0 <= pj < NP
+    post: _
+    """
+    pi, pj = bsearch(pi, NP), bsearch(pj, NP)
+    with concrete():
+        alone = {}
+        for k in {pi, pj}:
+            conn, log, exc, same = serve(SB + PAYLOADS[k][0] + EB + CR, 3, -1, with_err)
+            alone[k] = (conn.sent, conn.closed >= 1, log, type(exc).__name__ if exc else None)
+        (c1, l1, e1), (c2, l2, e2) = serve_two(pi, pj, with_err)
+        # each connection: exactly what it gets alone (its own handler invocation, its own reply), and the first one's reply is
+        # not touched by serving the second
+        return (c1.sent, c1.closed >= 1, l1, e1) == alone[pi] and (c2.sent, c2.closed >= 1, l2, e2) == alone[pj]
+
+
 # ---- M: arbitrary short frames over a 6-symbol alphabet ----------------------------------------------------------
 def _wellformed(data):
     """SB payload EB CR with a non-empty payload that has no empty line (what the frame regex demands)"""
@@ -319,6 +356,11 @@ def explain(call):
         payload = PAYLOADS[v['pi']][0]
         conn, log, exc, same = serve(SB + payload + EB + CR, v['first'], -1, v['with_err'])
         out.append('payload %r ERR-handler=%s -> log %r sent %r closed %d exc %r (expected %r)' % (payload, v['with_err'], log, conn.sent, conn.closed, exc, PAYLOADS[v['pi']][1:]))
+    elif name == '_ob_iso':
+        v = dict(zip(['pi', 'pj', 'with_err'], a)); v.update(kw)
+        (c1, l1, e1), (c2, l2, e2) = serve_two(v['pi'], v['pj'], v['with_err'])
+        out.append('one server, connection 1 %r -> log %r sent %r exc %r ; connection 2 %r -> log %r sent %r exc %r' % (
+            PAYLOADS[v['pi']][0], l1, c1.sent, e1, PAYLOADS[v['pj']][0], l2, c2.sent, e2))
     elif name == '_ob_raw':
         v = dict(zip(['r', 'first'], a)); v.update(kw)
         data = FRAMES[v['r']]
@@ -349,6 +391,10 @@ SPEC = {
                   'exactly one handler (the registered one) gets exactly the framed text, one reply, closed' % MAXBODY},
         {'name': 'T.trunc', 'fn': '_ob_trunc', 'parts': 16, 'cond_timeout': 600, 'path_timeout': 60,
          'bound': 'every prefix of a %d-byte frame x first recv 1..3 x timeout after every step: complete -> one reply, else none; always closed' % NF},
+        {'name': 'I.pairs', 'fn': '_ob_iso', 'parts': 1, 'cond_timeout': 300, 'path_timeout': 60,
+         'bound': 'every ordered pair of the %d routing payloads, with and without ERR handler, served one after the other by ONE server '
+                  'object and handlers table: each connection causes the handler invocation and gets the reply it gets alone (a serial '
+                  'schedule of the threaded server; simultaneous clients are outside)' % NP},
         {'name': 'R.route', 'fn': '_ob_route', 'parts': 1, 'cond_timeout': 300, 'path_timeout': 60,
          'bound': '%d payload kinds x ERR handler present/absent x first recv 1..3' % NP},
         {'name': 'M.raw', 'fn': '_ob_raw', 'parts': 32, 'cond_timeout': {'quick': 600, 'thorough': 2400}, 'path_timeout': 60,
